@@ -33,6 +33,8 @@ func VFRun(env *vfc.Env) {
 		vfC05(env)
 	case "db.c04":
 		vfC04(env)
+	case "db.c04p":
+		vfC04P(env)
 	case "db.c13":
 		vfHistories(env, "c13", nil)
 	case "db.gc":
